@@ -51,6 +51,65 @@
    member correctly except c = 18, p = 3 (pointer difference, which divides by
    the size: gcc rejects it), so each must be Accepted or Diagnosed.
 
+   Fate family (fifth round, seeded change C13-8: the driver took a child killed
+   by a signal for a success): HOW A CHILD OF THE DRIVER ENDS.  ft = [ch, md, how,
+   n, w], s = 0: the command of mode md (1 -E, 2 -S, 3 -c, 4 compile+assemble+link)
+   is run with the real driver and child ch of its plan (1 cc1, 2 as, 3 ld; Propagate.tla
+   Plan) ends by exit status n in FtExit (how = "exit") or killed by signal n in
+   FtSignals (how = "signal"), before doing anything or after having done all of
+   its work (w); how = "ok", ch = 0 is the clean run of the mode.  Judged by
+   PropagateTrace.tla (Level A: Propagate.tla Answer).  Quick: the clean runs and 1/FateStride
+   of the others (consecutive exit statuses / signals of one (child, mode, when) fall into different residues).
+
+   Prefix family (fifth round, seeded change C13-9: the caret placement looped on
+   a stray UTF-8 continuation byte in front of the caret): WHAT ELSE STANDS ON THE
+   DIAGNOSED LINE.  px = [c, b, cs] on host seed s (an invalid seed: s > NValid):
+   in front of the host's text stands a construct in which every byte is
+   acceptable - c = 1 a comment (in front of every line that starts outside a
+   comment / literal / continued line), 2 a declaration with a string literal,
+   3 one with a character constant (2 and 3: hosts without directives, which are
+   rendered on one line that starts at file scope; seed attribute d) - that
+   holds the byte string: lead byte no. b of the harness's LEADS (stray
+   continuation bytes 0x80 0xBF, the invalid leads 0xC0 0xF5 0xFF, 2-, 3- and
+   4-byte leads incl. the ones with restricted second bytes 0xE0 0xED 0xF0 0xF4, and
+   the ASCII control 0x7F) followed by the continuation bytes cs, a sequence of
+   length 0..3 over CONTS (0x80 0xA0 0xBF): every well-formed sequence class and
+   every way of being ill-formed (truncated, overlong, surrogate, > U+10FFFF,
+   stray and surplus continuation bytes, a lead after a lead).  Level A: a
+   comment is replaced by one space and a declaration of another identifier
+   changes nothing, so the input is invalid as its host is: Accepted or
+   Diagnosed like every input.  Hosts per byte string: one (rank (index + Seed)
+   among the eligible hosts) when PrefStride = 0 - the quick tier - else every
+   PrefStride-th.
+
+   Atomic-operand family (fifth round: __builtin_compare_and_swap on a long double
+   or a 3-byte struct hit unreachable() in the code generator): THE OPERAND TYPES
+   OF THE ATOMIC BUILTINS AND OPERATORS.  at = [f, t, u], s = 0; t, u in
+   1..NAType (harness ATYPES: _Bool char short int long float double long double
+   pointer enum, structs of 0 1 2 3 4 8 16 bytes, union, array, function, void,
+   incomplete struct, bit-field).  Forms 1..NAForm2 take two types: 1
+   compare-and-swap on a T object with a new value of type U, 2 exchange
+   likewise, 3 compare-and-swap on a T object with the expected value in a U
+   object; forms NAForm2+1..NAForm take one (u = 0): the object itself where its
+   address is expected (2 forms), and the standard C forms on an `_Atomic T`
+   object (op=, ++, --, atomic_fetch_add, atomic_exchange,
+   atomic_compare_exchange_strong, atomic_load + atomic_store, atomic_init).
+   Quick: every one-type member, the diagonal t = u, and 1/AtomStride of the rest.
+
+   Qualifier family (fifth round: `int * _Atomic p;` and `int a[const 3]` as a
+   parameter - C11 programs - were rejected): A TYPE-QUALIFIER-LIST IN EVERY
+   POSITION THE GRAMMAR HAS ONE.  qa = [q, p], s = 0: q = the list (harness QUALS:
+   const, volatile, restrict and its two GNU spellings, _Atomic, and lists of two),
+   p = the position (QPOS: declaration specifiers before / after the type
+   specifier; after `*` in an object, pointer-to-pointer, member, function
+   pointer, named and unnamed parameter, cast, sizeof, local, typedef and
+   return-type declarator; inside the brackets of an array parameter alone, before
+   the size, after and before `static`, in a definition).  Level A (C11 6.7.3,
+   6.7.6.1, 6.7.6.2, 6.7.6.3; validated against gcc over the whole domain): a
+   program unless restrict qualifies something that is not a pointer to an
+   object type; must be Accepted then (except _Atomic inside array brackets,
+   which the supported language does not have).  All members in every tier.
+
    One TLC state per edited input; every state emits its input (CSVWrite).  The
    quick tier takes the VERIF_SEED-selected 1/Stride (pairs: 1/PairStride) of
    this closed domain; the guard is evaluated before the edit is applied.      *)
@@ -61,6 +120,10 @@ CONSTANTS NAlpha,       \* size of the edit alphabet
           PairTok,      \* alphabet indices used in pairs
           NDir, NEnd,   \* trailing directive lines 1..NDir (0 = none), endings 1..NEnd
           NZ, NZStruct, NCtx, NValCtx,   \* zero-sized family: types 1..NZ (1..NZStruct struct/union), contexts 1..NCtx (1..NValCtx by value)
+          FtExit, FtSignals, FateStride, \* fate family: exit statuses and signals a child of the driver ends with
+          NValid, NCont, NLead, NContByte, PrefStride,   \* prefix family: seeds 1..NValid are valid; containers, lead bytes, continuation bytes
+          NAType, NAForm2, NAForm, AtomStride,           \* atomic-operand family
+          NQual, NQPos,                                  \* qualifier family
           Seed, Stride, PairStride, TailStride,
           Emit
 
@@ -68,6 +131,7 @@ CONSTANTS NAlpha,       \* size of the edit alphabet
    tokenising seeds/ (a TLC configuration file cannot hold a sequence) *)
 SeedRecs == ndJsonDeserialize(IOEnv.SEEDS)
 SeedLensFromFile == [s \in 1..Len(SeedRecs) |-> SeedRecs[s].n]     \* read once, in Init (variable lens)
+SeedDirsFromFile == [s \in 1..Len(SeedRecs) |-> SeedRecs[s].d]     \* 1 = the seed has directives (several lines)
 Kinds == <<"del", "rep", "ins", "dup", "swap">>
 KNo(k) == CHOOSE j \in 1..5 : Kinds[j] = k
 
@@ -97,26 +161,76 @@ Sel2(s, e1, e2) == ((Ix(s, e1) % 1000003) * 31 + (Ix(s, e2) % 1000003) + Seed) %
 NoTail == [d |-> 0, e |-> 0]
 NoRd == [a |-> 0, b |-> 0, sc |-> 0]
 NoZs == [z |-> 0, c |-> 0, p |-> 0]
+NoFt == [ch |-> 0, md |-> 0, how |-> "", n |-> 0, w |-> ""]
+NoPx == [c |-> 0, b |-> 0, cs |-> <<>>]
+NoAt == [f |-> 0, t |-> 0, u |-> 0]
+NoQa == [q |-> 0, p |-> 0]
+(* an input of no family: no seed, no edit, the ordinary rendering *)
+Base == [s |-> 0, ed |-> <<>>, tail |-> NoTail, rd |-> NoRd, zs |-> NoZs, ft |-> NoFt, px |-> NoPx, at |-> NoAt, qa |-> NoQa]
+
 ZsOK(x) == x.z \in 1..NZ /\ x.c \in 1..NCtx /\ x.p \in 1..3 /\ (x.c <= NValCtx => x.z <= NZStruct)
-Zeros == {[s |-> 0, ed |-> <<>>, tail |-> NoTail, rd |-> NoRd, zs |-> r] : r \in {x \in [z : 1..NZ, c : 1..NCtx, p : 1..3] : ZsOK(x)}}
+Zeros == {[Base EXCEPT !.zs = r] : r \in {x \in [z : 1..NZ, c : 1..NCtx, p : 1..3] : ZsOK(x)}}
 FileKinds == 1..7
 BlockKinds == 1..8
-Redecls == {[s |-> 0, ed |-> <<>>, tail |-> NoTail, zs |-> NoZs, rd |-> r] :
+Redecls == {[Base EXCEPT !.rd = r] :
               r \in    [a : FileKinds, b : FileKinds, sc : {1}]
                   \cup [a : BlockKinds, b : BlockKinds, sc : {2, 5}]
                   \cup [a : FileKinds, b : BlockKinds, sc : {3}]
                   \cup [a : {9}, b : BlockKinds, sc : {4}]}
 Sel3(s, d, e) == (s * 7919 + d * 104729 + e * 1299709 + Seed) % TailStride = 0
 
-Singles(L) == {x \in UNION {[s : {s}, ed : {<<e>> : e \in EditsOf(L[s], 1..NAlpha)}, tail : {NoTail}, rd : {NoRd}, zs : {NoZs}] : s \in 1..Len(L)} :
+(* fate family: child ch is in the plan of mode md (Propagate.tla Plan) *)
+InPlan(ch, md) == ch = 1 \/ (ch = 2 /\ md >= 3) \/ (ch = 3 /\ md = 4)
+FtOK(x) == /\ x.md \in 1..4
+           /\ \/ x.how = "ok" /\ x.ch = 0 /\ x.n = 0 /\ x.w = "after"
+              \/ x.how = "exit" /\ x.n \in FtExit /\ x.w \in {"before", "after"} /\ x.ch \in 1..3 /\ InPlan(x.ch, x.md)
+              \/ x.how = "signal" /\ x.n \in FtSignals /\ x.w \in {"before", "after"} /\ x.ch \in 1..3 /\ InPlan(x.ch, x.md)
+SelF(x) == x.how = "ok" \/ (x.ch * 3 + x.md * 5 + x.n + (IF x.w = "after" THEN 1 ELSE 0) + Seed) % FateStride = 0
+Fates == {[Base EXCEPT !.ft = r] :
+            r \in {x \in      [ch : 1..3, md : 1..4, how : {"exit"}, n : FtExit, w : {"before", "after"}]
+                         \cup [ch : 1..3, md : 1..4, how : {"signal"}, n : FtSignals, w : {"before", "after"}]
+                         \cup [ch : {0}, md : 1..4, how : {"ok"}, n : {0}, w : {"after"}] : FtOK(x) /\ SelF(x)}}
+
+(* prefix family *)
+CB == 1..NContByte
+ContSeqs == {<<>>} \cup {<<a>> : a \in CB} \cup {<<a, b>> : a \in CB, b \in CB} \cup {<<a, b, c>> : a \in CB, b \in CB, c \in CB}
+CsIx(cs) == IF Len(cs) = 0 THEN 0 ELSE IF Len(cs) = 1 THEN cs[1]
+            ELSE IF Len(cs) = 2 THEN 3 + cs[1] * 3 + cs[2] ELSE 15 + cs[1] * 9 + cs[2] * 3 + cs[3]
+PIx(x) == x.c * 7 + x.b * 131 + CsIx(x.cs) * 17
+PxOK(x) == x.c \in 1..NCont /\ x.b \in 1..NLead /\ x.cs \in ContSeqs
+HostOK(L, D, s, c) == s \in (NValid + 1)..Len(L) /\ (c = 1 \/ D[s] = 0)
+HostSet(L, D, c) == {s \in 1..Len(L) : HostOK(L, D, s, c)}
+PrefixedC(L, D, c) ==
+  LET H    == HostSet(L, D, c)
+      rank == [s \in H |-> Cardinality({h \in H : h <= s})]          \* 1..Cardinality(H), in seed order
+      st   == IF PrefStride = 0 THEN Cardinality(H) ELSE PrefStride IN
+  {x \in [s : H, ed : {<<>>}, tail : {NoTail}, rd : {NoRd}, zs : {NoZs}, ft : {NoFt}, at : {NoAt}, qa : {NoQa},
+           px : [c : {c}, b : 1..NLead, cs : ContSeqs]] :
+     (rank[x.s] + PIx(x.px) + Seed) % st = 0}
+Prefixed(L, D) == UNION {PrefixedC(L, D, c) : c \in 1..NCont}
+
+(* atomic-operand family *)
+AtOK(x) == x.f \in 1..NAForm /\ x.t \in 1..NAType /\ (IF x.f <= NAForm2 THEN x.u \in 1..NAType ELSE x.u = 0)
+SelA(x) == x.u = 0 \/ x.u = x.t \/ (x.f * 7 + x.t * 13 + x.u * 31 + Seed) % AtomStride = 0
+Atoms == {[Base EXCEPT !.at = r] :
+            r \in {x \in [f : 1..NAForm2, t : 1..NAType, u : 1..NAType] \cup [f : (NAForm2 + 1)..NAForm, t : 1..NAType, u : {0}] : SelA(x)}}
+
+(* qualifier family *)
+QaOK(x) == x.q \in 1..NQual /\ x.p \in 1..NQPos
+Quals == {[Base EXCEPT !.qa = r] : r \in [q : 1..NQual, p : 1..NQPos]}
+
+(* (record-set constructors, not [Base EXCEPT ...]: TLC enumerates them two orders of magnitude faster) *)
+Singles(L) == {x \in UNION {[s : {s}, ed : {<<e>> : e \in EditsOf(L[s], 1..NAlpha)}, tail : {NoTail}, rd : {NoRd}, zs : {NoZs}, ft : {NoFt}, px : {NoPx}, at : {NoAt}, qa : {NoQa}] :
+                               s \in 1..Len(L)} :
                  Sel1(x.s, x.ed[1])}
-Tails(L) == {x \in [s : 1..Len(L), ed : {<<>>}, tail : [d : 0..NDir, e : 1..NEnd], rd : {NoRd}, zs : {NoZs}] : Sel3(x.s, x.tail.d, x.tail.e)}
-Pairs(L) == UNION {UNION {{[s |-> s, ed |-> <<e1, e2>>, tail |-> NoTail, rd |-> NoRd, zs |-> NoZs] :
+Tails(L) == {x \in [s : 1..Len(L), ed : {<<>>}, tail : [d : 0..NDir, e : 1..NEnd], rd : {NoRd}, zs : {NoZs}, ft : {NoFt}, px : {NoPx}, at : {NoAt}, qa : {NoQa}] :
+               Sel3(x.s, x.tail.d, x.tail.e)}
+Pairs(L) == UNION {UNION {{[Base EXCEPT !.s = s, !.ed = <<e1, e2>>] :
                              e2 \in {e \in EditsOf(Len(Apply(Ident(L[s]), e1)), PairTok) : Sel2(s, e1, e)}} :
                           e1 \in EditsOf(L[s], PairTok)} :
                    s \in {z \in 1..Len(L) : L[z] <= PairMax}}
 
-VARIABLES lens,        \* number of tokens of each seed (constant after Init)
+VARIABLES lens, dirs,  \* number of tokens of each seed, its directive attribute (constant after Init)
           cur, done
 SeedLens == lens
 
@@ -125,24 +239,32 @@ Result(x) == IF x.s = 0 THEN <<>>
              ELSE IF Len(x.ed) = 1 THEN Apply(Ident(SeedLens[x.s]), x.ed[1])
              ELSE Apply(Apply(Ident(SeedLens[x.s]), x.ed[1]), x.ed[2])
 
-Init == /\ lens = SeedLensFromFile
+Init == /\ lens = SeedLensFromFile /\ dirs = SeedDirsFromFile
         /\ cur \in Singles(lens) \cup Pairs(lens) \cup Tails(lens) \cup Redecls \cup Zeros
+                  \cup Fates \cup Prefixed(lens, dirs) \cup Atoms \cup Quals
         /\ done = FALSE
-Next == /\ ~done /\ done' = TRUE /\ UNCHANGED <<cur, lens>>
-        /\ Emit => CSVWrite("%1$s", <<ToJson([s |-> cur.s, ed |-> cur.ed, tail |-> cur.tail, rd |-> cur.rd, zs |-> cur.zs, r |-> Result(cur)])>>, IOEnv.OUT)
-Spec == Init /\ [][Next]_<<cur, done, lens>>
+Next == /\ ~done /\ done' = TRUE /\ UNCHANGED <<cur, lens, dirs>>
+        /\ Emit => CSVWrite("%1$s", <<ToJson([s |-> cur.s, ed |-> cur.ed, tail |-> cur.tail, rd |-> cur.rd, zs |-> cur.zs,
+                                               ft |-> cur.ft, px |-> cur.px, at |-> cur.at, qa |-> cur.qa, r |-> Result(cur)])>>, IOEnv.OUT)
+Spec == Init /\ [][Next]_<<cur, done, lens, dirs>>
 
 (* what an edited input is: only seed tokens and alphabet tokens, length within the edit distance, and
    really different from the seed's own index sequence *)
+OnlyFamily(f) == /\ (f # "rd" => cur.rd = NoRd) /\ (f # "zs" => cur.zs = NoZs) /\ (f # "ft" => cur.ft = NoFt)
+                 /\ (f # "px" => cur.px = NoPx) /\ (f # "at" => cur.at = NoAt) /\ (f # "qa" => cur.qa = NoQa)
 WellFormed ==
-  IF cur.s = 0 /\ cur.zs # NoZs
-  THEN cur.rd = NoRd /\ ZsOK(cur.zs)
+  IF cur.s = 0 /\ cur.zs # NoZs THEN OnlyFamily("zs") /\ ZsOK(cur.zs)
+  ELSE IF cur.s = 0 /\ cur.ft # NoFt THEN OnlyFamily("ft") /\ FtOK(cur.ft)
+  ELSE IF cur.s = 0 /\ cur.at # NoAt THEN OnlyFamily("at") /\ AtOK(cur.at)
+  ELSE IF cur.s = 0 /\ cur.qa # NoQa THEN OnlyFamily("qa") /\ QaOK(cur.qa)
   ELSE IF cur.s = 0
-  THEN cur.zs = NoZs /\ cur.rd.sc \in 1..5 /\ cur.rd.b \in 1..8 /\ cur.rd.a \in 1..9
+  THEN OnlyFamily("rd") /\ cur.rd.sc \in 1..5 /\ cur.rd.b \in 1..8 /\ cur.rd.a \in 1..9
        /\ (cur.rd.a = 9 <=> cur.rd.sc = 4) /\ (cur.rd.sc = 1 => cur.rd.a # 8 /\ cur.rd.b # 8)
+  ELSE IF cur.px # NoPx
+  THEN OnlyFamily("px") /\ PxOK(cur.px) /\ HostOK(lens, dirs, cur.s, cur.px.c) /\ cur.ed = <<>> /\ cur.tail = NoTail
   ELSE
   LET n == SeedLens[cur.s]  r == Result(cur)  m == Len(cur.ed) IN
-  /\ cur.rd = NoRd /\ cur.zs = NoZs
+  /\ OnlyFamily("")
   /\ Len(r) \in (n - m)..(n + m)
   /\ \A j \in 1..Len(r) : r[j] \in 1..n \/ -r[j] \in 1..NAlpha
   /\ (m = 1 => r # Ident(n))
